@@ -38,7 +38,7 @@ empty :=
 space := $(empty) $(empty)
 WRAPFLAGS := -Wl,$(subst $(space),$(comma),$(WRAPS:%=--wrap=%))
 
-SIMOBJ := $(B)/sim/sim.o
+SIMOBJ := $(B)/sim/sim.o $(B)/sim/vsched.o
 SUPOBJ := $(B)/sim/support.o
 LDLIBS := -lssl -lcrypto -lmbedtls -lmbedx509 -lmbedcrypto -lpthread
 
@@ -70,7 +70,7 @@ $(B)/asan/libevent_all.a: $(LIBOBJ)
 	@rm -f $@
 	@ar rcs $@ $(LIBOBJ)
 
-$(B)/sim/%.o: sim/%.cc sim/sim.h lib/verif.h $(CFG)/event2/event-config.h
+$(B)/sim/%.o: sim/%.cc sim/sim.h sim/vsched.h lib/verif.h $(CFG)/event2/event-config.h
 	@mkdir -p $(dir $@)
 	@echo "[cxx] $<"; $(CXX) $(TCXXFLAGS) -MMD -MP -c $< -o $@
 
